@@ -131,6 +131,49 @@ theorem C19_cockpit_total (σ : Cockpit) (as : List CAct) : crun cstep σ as = .
   | nil => rfl
   | cons a as ih => cases a <;> simp [crun, cstep, ih]
 
+/-- one action that is not `close`, from an open cockpit: the cockpit stays open, and printed ++ queued
+grows by exactly what the action makes due -/
+theorem cp_step_conserves (σ : CP) (a : CPAct) (hc : σ.closed = false) (ha : a ≠ .close) :
+    (cpStep σ a).closed = false ∧ (cpStep σ a).spinner = nextSp σ.spinner a ∧
+    (cpStep σ a).printed ++ (cpStep σ a).queue = σ.printed ++ σ.queue ++ dueOf σ.spinner a := by
+  cases a with
+  | add t => simp [cpStep, nextSp, dueOf, hc]
+  | remove t =>
+    cases hs : σ.spinner <;> simp [cpStep, nextSp, dueOf, hc, hs]
+  | frame => simp [cpStep, nextSp, dueOf, hc]
+  | close => exact absurd rfl ha
+
+theorem cp_run_conserves (as : List CPAct) : ∀ σ, σ.closed = false → (∀ a ∈ as, a ≠ .close) →
+    (cpRun σ as).closed = false ∧
+    (cpRun σ as).printed ++ (cpRun σ as).queue = σ.printed ++ σ.queue ++ cpDue σ.spinner as := by
+  induction as with
+  | nil => intro σ hc _; simp [cpRun, cpDue, hc]
+  | cons a as ih =>
+    intro σ hc h
+    obtain ⟨h1, h2, h3⟩ := cp_step_conserves σ a hc (h a List.mem_cons_self)
+    obtain ⟨i1, i2⟩ := ih (cpStep σ a) h1 (fun b hb => h b (List.mem_cons_of_mem _ hb))
+    refine ⟨by simpa [cpRun] using i1, ?_⟩
+    simp only [cpRun, List.foldl_cons] at i2 ⊢
+    rw [i2, h3, h2]
+    simp [cpDue, List.append_assoc]
+
+/-- **C19 (cockpit, repaired)**: when the cockpit is closed at the end of the run, the "Finished" line
+of every task that finished while the indicator existed has been printed exactly once, in the order
+in which the tasks finished, and nothing is left queued — for every sequence of starts, finishes and
+frames (no line depends on a frame happening to be drawn in time). -/
+theorem C19_cockpit_delivers (as : List CPAct) (h : ∀ a ∈ as, a ≠ .close) :
+    (cpRun cpInit (as ++ [.close])).printed = cpDue false as ∧
+    (cpRun cpInit (as ++ [.close])).queue = [] := by
+  obtain ⟨h1, h2⟩ := cp_run_conserves as cpInit rfl h
+  simp only [cpRun, List.foldl_append, List.foldl_cons, List.foldl_nil] at h1 h2 ⊢
+  simp only [cpStep, h1]
+  have h3 : (List.foldl cpStep cpInit as).printed ++ (List.foldl cpStep cpInit as).queue = cpDue false as := by
+    rw [h2]; simp [cpInit]
+  exact ⟨by simpa using h3, rfl⟩
+
+example : (cpRun cpInit [.remove 7, .add 1, .add 2, .remove 2, .frame, .remove 1, .close]).printed = [2, 1] := by decide
+example : cpDue false [.remove 7, .add 1, .add 2, .remove 2, .frame, .remove 1] = [2, 1] := by decide
+
 /-- regression witness for defect D11 (fixed) -/
 theorem C19_witness_old_cockpit_skipped : crun cstepOld ⟨false, []⟩ [.remove 0] = .panic := by decide
 
